@@ -6,6 +6,7 @@ import (
 	"encoding/json"
 	"fmt"
 	goio "io"
+	"math/bits"
 	"path/filepath"
 	"regexp"
 	"strconv"
@@ -462,8 +463,15 @@ func c25Run(raw json.RawMessage) (res Result, err error) {
 	res.Coq = cq.Rec(cq.F("k_tgs", cq.List(ctgs)), cq.F("k_rcode", cq.Nat(rcode)), cq.F("k_q", cq.List(cq_)))
 
 	// ---- classes (executable mirrors of the Coq guards) and the property oracle ----
-	mixed, secsLost := false, false
+	// class decoded-second-rounded-up (C10 F1 / C09): GetTimeFromTicks rounds the seconds to 8 decimals but keeps the
+	// sub-second part, so ticks whose exact position has a fraction >= 0.99999999 s decode about a second late.  The
+	// replica re-encodes the DECODED time, so the rounding can bite on the master's ticks or on the re-encoded ones.
+	mixed, f1 := false, false
 	nvar, nfix := 0, 0
+	f1At := func(ipd uint32, ticks uint32) bool {
+		hi, lo := bits.Mul64(uint64(ticks), 86400000000000/uint64(ipd))
+		return (hi<<32|lo>>32)%1000000000 >= 999999990
+	}
 	for _, tg := range obs.TGs {
 		for _, w := range tg {
 			if w.RT != tg[0].RT {
@@ -472,10 +480,14 @@ func c25Run(raw json.RawMessage) (res Result, err error) {
 			if w.RT == int(io.VARIABLE) && w.VRL >= 4 {
 				nvar++
 				ipd := uint32(int64(86400) * 1000000000 / w.TF)
+				start := io.IndexToTime(w.Index, time.Duration(w.TF), int16(w.Year)).Unix()
 				for o := 0; o+w.VRL <= len(w.Payload); o += w.VRL {
 					ticks := binary.LittleEndian.Uint32(w.Payload[o+w.VRL-4:])
-					if sec, _ := executor.GetTimeFromTicks(0, ipd, ticks); sec != 0 {
-						secsLost = true
+					sec, ns := executor.GetTimeFromTicks(uint64(start), ipd, ticks)
+					t := time.Unix(int64(sec), int64(int32(ns))).UTC()
+					reticks := io.GetIntervalTicks32Bit(t, io.TimeToIndex(t, time.Duration(w.TF)), int64(ipd))
+					if f1At(ipd, ticks) || f1At(ipd, reticks) {
+						f1 = true
 					}
 				}
 			} else {
@@ -512,30 +524,40 @@ func c25Run(raw json.RawMessage) (res Result, err error) {
 			ipd := c25IPD[in.Buckets[bi].TF]
 			tol = 2 * ((86400000000000/ipd + 4294967295) / 4294967296)
 		}
+		// same rows: every master row is matched by its own replica row with the same column bytes and a timestamp
+		// within the tolerance (records whose ticks differ by less than the resolution may come back in another order)
+		used := make([]bool, len(qb.Replica))
 		for i := range qb.Master {
-			d := qb.Master[i].T - qb.Replica[i].T
-			if d < 0 {
-				d = -d
+			found := false
+			for j := range qb.Replica {
+				d := qb.Master[i].T - qb.Replica[j].T
+				if d < 0 {
+					d = -d
+				}
+				if !used[j] && d <= tol && string(qb.Master[i].Data) == string(qb.Replica[j].Data) {
+					used[j], found = true, true
+					break
+				}
 			}
-			if d > tol || string(qb.Master[i].Data) != string(qb.Replica[i].Data) {
-				fail("bucket %s row %d: master (t=%d ns, %x) replica (t=%d ns, %x), tolerance %d ns", qb.Bucket, i,
-					qb.Master[i].T, qb.Master[i].Data, qb.Replica[i].T, qb.Replica[i].Data, tol)
+			if !found {
+				fail("bucket %s: master row %d (t=%d ns, %x) has no replica row with the same columns within %d ns (replica row %d: t=%d ns, %x)",
+					qb.Bucket, i, qb.Master[i].T, qb.Master[i].Data, tol, i, qb.Replica[i].T, qb.Replica[i].Data)
 				break
 			}
 		}
 	}
 	if !res.Holds && obs.Code == 0 && len(obs.WErrs) == 0 {
-		if secsLost {
-			res.Class = "variable-seconds-within-interval"
+		if f1 {
+			res.Class = "decoded-second-rounded-up"
 		}
 	}
-	res.InDomain = obs.Code == 0 && !secsLost
+	res.InDomain = obs.Code == 0 && !f1
 	res.Tags = []string{fmt.Sprintf("tgs=%d", len(obs.TGs)), fmt.Sprintf("buckets=%d", len(in.Buckets))}
 	if mixed {
 		res.Tags = append(res.Tags, "mixed-tg")
 	}
-	if secsLost {
-		res.Tags = append(res.Tags, "seconds-within-interval")
+	if f1 {
+		res.Tags = append(res.Tags, "decoded-second-rounded-up")
 	}
 	if nvar > 0 {
 		res.Tags = append(res.Tags, "has-variable")
@@ -563,7 +585,7 @@ func init() {
 			"1-3 writes x 1-3 rows (same second / same interval / later intervals, year edges, nanoseconds 0 / 999999999 / small / random), " +
 			"each TG = one flush on a real master instance; single-write TGs go through the real WriteCSM 60% of the time; the recorded TG " +
 			"stream is replayed on a real replica instance by replication.Receiver.Run; distinct = distinct input JSON; non-trivial = inside " +
-			"the guard (no seconds inside a variable interval) with >= 2 write sets",
+			"the guard (no tick exposed to the decoder's second rounding) with >= 2 write sets",
 		Gen: c25Gen,
 		Run: c25Run,
 	})
